@@ -168,9 +168,11 @@ def children(x: Any) -> list[Any]:
     return out
 
 
-def walk(root: Any) -> list[Any]:
+def walk(root: Any, through_sends: bool = True) -> list[Any]:
     """All distinct (by identity) nodes reachable from *root* (an Array, a
-    DistributedSend or a DictOfNamedArrays), children first."""
+    DistributedSend or a DictOfNamedArrays), children first.  With
+    through_sends=False a send holder only leads to its pass-through data."""
+    from pytato.distributed.nodes import DistributedSendRefHolder
     seen: dict[int, Any] = {}
     order: list[Any] = []
 
@@ -183,8 +185,11 @@ def walk(root: Any) -> list[Any]:
             for k in x:
                 rec(x._data[k])
             return
-        for c in children(x):
-            rec(c)
+        if not through_sends and isinstance(x, DistributedSendRefHolder):
+            rec(x.passthrough_data)
+        else:
+            for c in children(x):
+                rec(c)
         order.append(x)
     rec(root)
     return order
@@ -292,7 +297,9 @@ def comm_ends(dags: list[Any]) -> tuple[list[dict], list[dict]]:
                 sends.append({"rank": r, "dst": int(x.send.dest_rank),
                               "tag": x.send.comm_tag, "node": x.send})
     for s in sends:
-        below = walk(s["node"].data)
+        # data dependencies only: the value of a holder inside the data is its
+        # pass-through; what THAT holder sends is the other send's business
+        below = walk(s["node"].data, through_sends=False)
         s["deps"] = [i for i, rv in enumerate(recvs)
                      if rv["rank"] == s["rank"] and any(rv["node"] == y for y in below
                                                         if isinstance(y, DistributedRecv))]
